@@ -105,6 +105,12 @@ def gen_tree(rng, max_nodes=25, ws_mode=None, names=NAMES, max_depth=6, kinds=('
     def el(depth):
         budget[0] -= 1
         e = E(rng.choice(names), attrs(rng))
+        if e.name in ('style', 'script', 'rt', 'rp', 'template'):
+            # raw-text / special-string elements: parsers store their text in NavigableString subclasses
+            if rng.random() < .7:
+                e.kids.append(T('text', rng.choice(['p{}', 'x', ' ', 'a b'])))
+            budget[0] = max(budget[0], 0)
+            return e
         e.kids.extend(gen_filler(rng, ws_mode, kinds))
         while budget[0] > 0 and depth < max_depth and rng.random() < (.75 if depth < 2 else .5):
             e.kids.append(el(depth + 1))
